@@ -38,7 +38,7 @@ PID = 'C01'
 # lattice sample of the grid-shaped relational spaces (every value of every dimension keeps occurring) and the
 # stratified single-value space; the thorough tier takes every space whole
 MC_QUICK = ['quick']      # = strat + ondata + lattice samples lenret/8, lenparam/16, callbacks/8 in ONE TLC process
-MC_THOROUGH = ['witness', 'single', 'ondata', 'lenret', 'callbacks', 'null3', 'cont3', 'pairsret', 'pairsparam', 'lenparam']
+MC_THOROUGH = ['witness', 'shapes', 'single', 'ondata', 'lenret', 'callbacks', 'null3', 'cont3', 'pairsret', 'pairsparam', 'lenparam']
 TLC_TIMEOUT = 9000   # seconds per TLC process (generous: the machine may be shared)
 BATCH = 120          # cases per namespace (each case brings its variants: ~2-4 callables, i.e. some 400 callables)
 # what-if switches of tla/Annotate.tla (behaviours of earlier versions, each repaired by a fix: commit) -> witness configuration
@@ -141,7 +141,7 @@ def observe_batch(cases):
     """cases: normalized abstract cases with ids.  -> observations (one per case)"""
     from .. import scan as S
     plan = []          # (case idx, variant key or None, callable number)
-    syms = L.prelude()
+    syms, slots = [], []
     comments = []
     n = 0
     rendered = {}
@@ -150,11 +150,11 @@ def observe_batch(cases):
         for key, c in todo:
             n += 1
             sym, cm, where = L.render(c, n)
-            syms.append(sym)
+            (slots if L.is_member(c) else syms).append(sym)
             comments.append(cm)
             rendered[(ci, key)] = (n, c, where)
     try:
-        r = S.scan(syms, comments, dump_xml=L.DUMP)
+        r = S.scan(L.prelude(slots) + syms, comments, dump_xml=L.DUMP)
     except Exception as e:      # the scanner crashed on this namespace: isolate the case
         if len(cases) == 1:
             return [crash_obs(cases[0], repr(e))]
@@ -327,7 +327,10 @@ def random_case(rng, n):
     random_ann(rng, ret['ann'], 0.5)
     if rng.random() < 0.1:
         ret['ann']['dir'] = ''
-    return L.normalize(dict(id='rand-%d' % n, kind=kind, throws=rng.random() < 0.4, ret=ret, params=params))
+    shape, copy = 'plain', 1
+    if kind == 'method' and rng.random() < 0.5:
+        shape, copy = rng.choice(['movedto', 'vfunc']), rng.choice([1, 2])
+    return L.normalize(dict(id='rand-%d' % n, kind=kind, throws=rng.random() < 0.4, ret=ret, params=params, shape=shape, copy=copy))
 
 
 # ------------------------------------------------------------------ the check
@@ -479,10 +482,14 @@ def describe(case):
     def one(v, name):
         t = L.ann_text(case, v['ann'])
         return '%s%s%s' % (L.ctext(v), name, ('  /* %s */' % t) if t else '')
-    ps = ([('FooObj *self')] if case['kind'] == 'method' else []) + \
+    shape = case.get('shape', 'plain')
+    ps = ([('FooRec *self' if shape == 'movedto' else 'FooObj *self')] if case['kind'] == 'method' else []) + \
          [one(p, L.pname(case, k)) for k, p in enumerate(case['params'], 1)] + \
          (['GError **error'] if case['throws'] else [])
-    return '%s %s: %s (%s)' % (case['kind'], case.get('id', ''), one(case['ret'], ''), ', '.join(ps))
+    what = case['kind'] if shape == 'plain' else {
+        ('movedto', 1): '<method moved-to> made from function foo_recs_*', ('movedto', 2): '<function> foo_recs_* kept next to its moved-to method',
+        ('vfunc', 1): '<virtual-method> made from class-structure slot', ('vfunc', 2): '<field><callback> of the class structure'}[(shape, case.get('copy', 1))]
+    return '%s %s: %s (%s)' % (what, case.get('id', ''), one(case['ret'], ''), ', '.join(ps))
 
 
 if __name__ == '__main__':
